@@ -539,6 +539,7 @@ func (d *Driver) handleGo(args []string) (quit bool) {
 		}
 
 		for {
+			verifPoint("interrupt.loop")
 			// there are a set of reasons why the search needs interrupting.
 			//  - stop command
 			//  - quit command
